@@ -432,3 +432,56 @@ Lemma inv_empty : inv (mkOS [] [] []).
 Proof.
   split; [intros r []|]. split; [|exact I]. intro k. simpl. unfold owed. simpl. destruct k; simpl; lia.
 Qed.
+
+(* ---------------------------------------------------------------- histories with a persistent Votes store *)
+
+Lemma wf_op_eff store o : wf_op o -> wf_op (eff_op store o).
+Proof. destruct o as [st svs h| |]; simpl; auto. Qed.
+
+(** the observations (and Votes store) the model produces along a history; an [OEnd] step carries only
+    the votes submitted since the previous step *)
+Fixpoint run_obs12 (fx : bool) (q : oparams) (s : hst12) (ops : list op) : list (op * sobs * list avote) :=
+  match ops with
+  | [] => []
+  | o :: r =>
+      match hstep12 fx q s o with
+      | HPanic => [(o, panic_obs, [])]
+      | HOk s' e => (o, obs_of (h12_os s') e, h12_store s') :: run_obs12 fx q s' r
+      end
+  end.
+
+(** at a vote-period end the Votes store is emptied, whatever was tallied (quorum or not) *)
+Theorem period_end_clears_store fx q s st svs h s' e :
+  hstep12 fx q s (OEnd st svs h) = HOk s' e -> is_period_last h (p_vote_period (op_base q)) = true -> h12_store s' = [].
+Proof.
+  unfold hstep12. destruct (step fx q (h12_os s) (eff_op (h12_store s) (OEnd st svs h))); [discriminate|].
+  intros H Hl. injection H as <- _. simpl. rewrite Hl. reflexivity.
+Qed.
+
+Theorem history12_P q : forall ops s e0,
+  inv (h12_os s) -> Forall wf_op ops ->
+  P_history12 q (obs_of (h12_os s) e0) (h12_store s) (run_obs12 true q s ops).
+Proof.
+  induction ops as [|o ops IH]; intros s e0 Hi Hw; [exact I|].
+  inversion Hw as [|? ? Ho Hr]; subst. cbn [run_obs12]. unfold hstep12.
+  pose proof (step_P q (h12_os s) e0 (eff_op (h12_store s) o) Hi (wf_op_eff _ _ Ho)) as Hs.
+  destruct (step true q (h12_os s) (eff_op (h12_store s) o)) as [|s1 e].
+  - cbn [P_history12]. split; [|exact I]. split; [|intro Hc; discriminate].
+    destruct o as [st svs h| |]; simpl in *; try contradiction. intro Hd. rewrite Hd in Hs. discriminate.
+  - destruct Hs as [HP Hi']. cbn [P_history12]. split.
+    + split; [exact HP | intros _; reflexivity].
+    + apply (IH (mkHst12 s1 (next_store q (h12_store s) o)) e Hi' Hr).
+Qed.
+
+Theorem history12_solvent q : forall ops s,
+  inv (h12_os s) -> Forall wf_op ops ->
+  Forall (fun x => so_panic (snd (fst x)) = false -> solvent (snd (fst x))) (run_obs12 true q s ops).
+Proof.
+  induction ops as [|o ops IH]; intros s Hi Hw; [constructor|].
+  inversion Hw as [|? ? Ho Hr]; subst. cbn [run_obs12]. unfold hstep12.
+  pose proof (step_P q (h12_os s) (mkEff [] []) (eff_op (h12_store s) o) Hi (wf_op_eff _ _ Ho)) as Hs.
+  destruct (step true q (h12_os s) (eff_op (h12_store s) o)) as [|s1 e].
+  - constructor; [simpl; discriminate | constructor].
+  - destruct Hs as [_ Hi']. constructor; [intros _; apply solvent_of_inv; exact Hi'|].
+    apply (IH (mkHst12 s1 (next_store q (h12_store s) o)) Hi' Hr).
+Qed.
